@@ -9,6 +9,8 @@ in the table as a written-back entry), the edit is performed, and the sentinel i
           absent | a user entry (non-prefixable) | a user entry (prefixable) | a written-back entry
   remove / modify  of a user symbol
   dump    `to_json()` and pickling of a quantity leave the written-back names out
+  cache   `add` / `remove` / `modify` empty `_unit_object_cache` (`Unit(str, registry=reg)` is a new object
+          afterwards); a loaded registry starts with an empty cache  ->  `regCacheCfg`
 
 The source is also inspected (`ast`): is `self._forget_derived_symbols()` an unconditional statement of
 `add` / `remove` / `modify`, before the table is touched?  The answer is the field
@@ -69,6 +71,28 @@ def probe_dump(unyt):
     return not in_json and not in_pickle
 
 
+def probe_cache(unyt, which):
+    """does the edit empty the string cache: is `Unit(str, registry=reg)` a NEW object afterwards?"""
+    import unyt.dimensions as D
+    from unyt import Unit
+
+    reg = _registry_with(unyt, 1)
+    u1 = Unit(SENTINEL, registry=reg)
+    if which == "add":
+        reg.add("c14r", 3.0, D.time)
+    elif which == "remove":
+        reg.remove(USER)
+    elif which == "modify":
+        reg.modify(USER, 5.0)
+    else:
+        from unyt import unyt_quantity
+
+        r2 = type(reg).from_json(reg.to_json())
+        r3 = pickle.loads(pickle.dumps(unyt_quantity(1.0, USER, registry=reg))).units.registry
+        return not getattr(r2, "_unit_object_cache", {}) and SENTINEL not in getattr(r3, "_unit_object_cache", {})
+    return Unit(SENTINEL, registry=reg) is not u1
+
+
 def unconditional_forget(cls, name):
     """is `self._forget_derived_symbols()` a top-level statement of the method, before any statement that
     mentions `self.lut`?"""
@@ -98,6 +122,8 @@ def generate(X):
     uncond = all(src_ok.values())
     dump = bool(probe_dump(unyt))
 
+    cache = {w: bool(probe_cache(unyt, w)) for w in ("add", "remove", "modify", "reload")}
+
     def lb(b):
         return "true" if b else "false"
 
@@ -109,7 +135,11 @@ def generate(X):
         + "  { addTbl := [" + ", ".join(lb(b) for b in add_tbl) + "],\n"
         + f"    removeForgets := {lb(rem)}, modifyForgets := {lb(mod)}, dumpSkipsDerived := {lb(dump)},\n"
         + f"    forgetUnconditional := {lb(uncond)} }}\n\n"
+        + "/-- which edits empty `_unit_object_cache` (probed: is `Unit(str, registry)` a new object afterwards) -/\n"
+        + "def regCacheCfg : Unyt.NamesHist.CacheCfg :=\n"
+        + f"  {{ addClears := {lb(cache['add'])}, removeClears := {lb(cache['remove'])}, modifyClears := {lb(cache['modify'])},\n"
+        + f"    reloadEmpty := {lb(cache['reload'])} }}\n\n"
         + "end Unyt.Generated.C14\n"
     )
     X.write_if_changed(os.path.join(X.GEN, "C14RegCfg.lean"), text)
-    return {"add_probe": add_probe, "source_unconditional": src_ok, "add_tbl": add_tbl, "remove": rem, "modify": mod, "dump": dump}
+    return {"add_probe": add_probe, "source_unconditional": src_ok, "add_tbl": add_tbl, "remove": rem, "modify": mod, "dump": dump, "cache": cache}
